@@ -220,7 +220,12 @@ def o_c12(w, args):
     """<vr> = <e>.vietorisRipsComplex(eps): the points of e's complex and a simplex exactly on the
     sets whose pairwise distances (listing-ordered pairs) are all <= eps"""
     vr = w.vars[args[0]]; e = w.vars[args[1]]; eps = float.fromhex(args[2])
-    c = e.complex(); pts = list(c.simplicesOfOrder(0))
+    c = w.vars.get(w.embcx.get(args[1]))          # the complex the script created the embedding on
+    if c is None:
+        c = e.complex()
+    elif e.complex() is not c:
+        return '[embedding/detached] the embedding does not hold the complex it was created on (it holds one with %d simplices, that one has %d)' % (len(e.complex().simplices()), len(c.simplices()))
+    pts = list(c.simplicesOfOrder(0)) if c.maxOrder() >= 0 else []
     metric = getattr(e, '_metric', None)
     pos = {tok(p): e.positionOf(p) for p in pts}
     close = set()
@@ -718,7 +723,12 @@ def o_c20(w, args):
     """after an embedding command on <e>: compare with the shadow 'last explicit assignment since the last clear'"""
     e = args[0]; em = w.vars[e]; sh = w.ostate['c20:' + e]
     line = w.last_line; out = w.last_out; toks = line.split(); kw = toks[0]
-    c = em.complex(); dim = em.dimension()
+    c = w.vars.get(w.embcx.get(e))                # the complex the script created the embedding on
+    if c is None:
+        c = em.complex()
+    elif em.complex() is not c:
+        return '[embedding/detached] the embedding does not hold the complex it was created on (it holds one with %d simplices, that one has %d)' % (len(em.complex().simplices()), len(c.simplices()))
+    dim = em.dimension()
     pts = {tok(p) for p in c.simplicesOfOrder(0)} if c.maxOrder() >= 0 else set()
     order = lambda s: c.orderOf(s) if SimplicialComplex.containsSimplex(c, s) else None
     origin = '[ ' + ' '.join([float(0).hex()] * dim) + ' ]'
